@@ -13,6 +13,7 @@ import (
 	"strconv"
 	"strings"
 
+	"git.torproject.org/pluggable-transports/snowflake.git/v2/common/util"
 	"github.com/pion/ice/v2"
 	"github.com/pion/sdp/v3"
 )
@@ -23,6 +24,70 @@ type View struct {
 	Table  map[string]int // line text -> id
 	Stable bool           // pion re-parses its own output to the same lines and the lines match the structure
 	Remar  []byte         // Marshal(Unmarshal(text))
+	MErrs  int            // MarshalErrs(text)
+}
+
+// Bits of MarshalErrs.
+const (
+	MarshalFullFailed     = 1 // desc.Marshal() failed on Unmarshal(text) as it is
+	MarshalStrippedFailed = 2 // ... on the description util.StripLocalAddresses marshals (marshal_ok = false in the model)
+	MarshalNoCandFailed   = 4 // ... on the description without any media-level candidate attribute
+)
+
+// MarshalErrs observes the library contract the first sentence of C08 rests on: util.StripLocalAddresses
+// returns the ORIGINAL text when desc.Marshal() fails, and from outside that cannot be told from a
+// description in which nothing had to be stripped.  So the same pion calls are made here: Unmarshal, then
+// Marshal on (1) the description as parsed, (2) the description the function under test marshals - its loop
+// is repeated below with the same library calls and the exported util.IsLocal - and (4) the description
+// with every media-level candidate attribute removed (the other extreme).  0 = no Marshal call failed, which
+// is what pion/sdp v3.0.5 (go.mod) guarantees: its Marshal ends with `return m.bytes(), nil`.
+func MarshalErrs(text []byte) int {
+	res := 0
+	var d1 sdp.SessionDescription
+	if err := d1.Unmarshal(text); err != nil {
+		return 0
+	}
+	if _, err := d1.Marshal(); err != nil {
+		res |= MarshalFullFailed
+	}
+	var d2 sdp.SessionDescription
+	if err := d2.Unmarshal(text); err == nil {
+		for _, m := range d2.MediaDescriptions {
+			attrs := make([]sdp.Attribute, 0)
+			for _, a := range m.Attributes {
+				if a.IsICECandidate() {
+					c, err := ice.UnmarshalCandidate(a.Value)
+					if err == nil && c.Type() == ice.CandidateTypeHost {
+						ip := net.ParseIP(c.Address())
+						if ip != nil && (util.IsLocal(ip) || ip.IsUnspecified() || ip.IsLoopback()) {
+							continue
+						}
+					}
+				}
+				attrs = append(attrs, a)
+			}
+			m.Attributes = attrs
+		}
+		if _, err := d2.Marshal(); err != nil {
+			res |= MarshalStrippedFailed
+		}
+	}
+	var d3 sdp.SessionDescription
+	if err := d3.Unmarshal(text); err == nil {
+		for _, m := range d3.MediaDescriptions {
+			attrs := make([]sdp.Attribute, 0)
+			for _, a := range m.Attributes {
+				if !a.IsICECandidate() {
+					attrs = append(attrs, a)
+				}
+			}
+			m.Attributes = attrs
+		}
+		if _, err := d3.Marshal(); err != nil {
+			res |= MarshalNoCandFailed
+		}
+	}
+	return res
 }
 
 // Split cuts marshalled SDP into its lines (every line ends CR LF).
@@ -65,11 +130,12 @@ func Structure(text []byte) View {
 	if err := desc.Unmarshal(text); err != nil {
 		return View{Tok: "U"}
 	}
+	merrs := MarshalErrs(text)
 	b1, err := desc.Marshal()
 	if err != nil {
-		return View{Tok: "U"}
+		return View{Tok: "U", MErrs: merrs | MarshalFullFailed}
 	}
-	v := View{Table: map[string]int{}, Remar: b1, Stable: true}
+	v := View{Table: map[string]int{}, Remar: b1, Stable: true, MErrs: merrs}
 	lines := Split(string(b1))
 	id := func(l string) string {
 		n, ok := v.Table[l]
@@ -100,6 +166,9 @@ func Structure(text []byte) View {
 	exact := "0"
 	if bytes.Equal(b1, text) {
 		exact = "1"
+	}
+	if merrs&MarshalStrippedFailed != 0 {
+		exact += "F"
 	}
 	parts := []string{exact, "-"}
 	if len(sess) > 0 {
@@ -162,6 +231,12 @@ func (v View) LineIDs(out string) string {
 		return "lines=-"
 	}
 	return "lines=" + strings.Join(ids, ",")
+}
+
+// FellBack reports that the function under test took its `desc.Marshal() failed -> return str` branch on
+// text: the library call failed here too and the text came back as it was.
+func (v View) FellBack(text, out string) bool {
+	return v.MErrs&MarshalStrippedFailed != 0 && out == text
 }
 
 // Sent describes the SDP text a call site handed to the broker relative to the text it started from.
